@@ -324,12 +324,19 @@ Definition upd_paused (c : cfg) (more : bool) (ord : N) (u : updk) (s : state) :
   | _ => s1
   end.
 
+(* the select of checkForUpdates has a choice only when two or more signals are pending; no label both adds a
+   signal and runs the executor's check, so this is decided on the state the label is applied to *)
+Definition ambiguous (s : state) : bool :=
+  let n := (if sig_pause s then 1 else 0) + (if sig_upd s then 1 else 0) + (match sig_err s with Some _ => 1 | None => 0 end) in 2 <=? n.
+Definition orders (s : state) : list N := if ambiguous s then [0; 1; 2; 3; 4; 5] else [0].
+Definition eff_ord (s : state) (ord0 : N) : N := if ambiguous s then N.min ord0 5 else 0.
+
 Definition st_code_is_paused (s : state) : bool :=
   match ent s with Some e => est_eqb (e_st e) Paused | None => false end.
 
 Definition step_ret_m (c : cfg) (more : bool) (s0 : state) (l : label) : state * N :=
   let '(lb, ord0) := l in
-  let ord := N.min ord0 5 in
+  let ord := eff_ord s0 ord0 in
   let s := set_evs [] s0 in
   (* while the loop is parked in a reservation nothing else is handled by it (calls into it queue up or block:
      not modelled); the labels that can resolve it are the failing send and the memory release *)
@@ -495,9 +502,6 @@ Definition cfg_found : cfg := mkCfg false false.
 
 (* trace acceptance: the set of model states compatible with what was observed so far; the select order is
    not observable, so every order is tried where more than one signal is pending *)
-Definition ambiguous (s : state) : bool :=
-  let n := (if sig_pause s then 1 else 0) + (if sig_upd s then 1 else 0) + (match sig_err s with Some _ => 1 | None => 0 end) in 2 <=? n.
-Definition orders (s : state) : list N := if ambiguous s then [0; 1; 2; 3; 4; 5] else [0].
 
 
 (* boolean equality of states, to keep the candidate set of the acceptor duplicate-free *)
